@@ -20,6 +20,18 @@ import history_run as H  # noqa: E402
 from sedpack.io import Dataset, Metadata, DatasetStructure, Attribute  # noqa: E402
 
 SPLITS = H.SPLITS
+OPENS = [0]
+SPY = {"on": False}
+
+
+def _hook(event, args):
+    if SPY["on"] and event == "open" and isinstance(args[0], (str, bytes, os.PathLike)):
+        p = os.fsdecode(args[0])
+        if p.endswith((".fb", ".npz")) and args[1] in ("r", "rb", 0, None, "rb+"):
+            OPENS[0] += 1
+
+
+sys.addaudithook(_hook)
 
 
 def build(spec, tmp):
@@ -69,7 +81,44 @@ def iterate(root, r):
     return iterate_ds(ds, r)
 
 
+def make_iter(ds, r):
+    """A plain Python iterator for the sync-style interfaces (used to interleave two live streams)."""
+    split = SPLITS[r["split"]]
+    kw = {"split": split, "repeat": r.get("repeat", False), "shuffle": r.get("shuffle", 0)}
+    iface = r["iface"]
+    if iface == "sync":
+        return iter(ds.as_numpy_iterator(**kw))
+    if iface == "concurrent":
+        return iter(ds.as_numpy_iterator_concurrent(file_parallelism=r.get("file_parallelism", 2), **kw))
+    if iface == "rust":
+        return iter(ds.as_numpy_iterator_rust(file_parallelism=r.get("file_parallelism", 2), **kw))
+    if iface == "tf":
+        return iter(ds.as_tfdataset(batch_size=0, file_parallelism=r.get("file_parallelism", 2), parallelism=1, prefetch=1, **kw))
+    raise ValueError(iface)
+
+
+def iterate_pair(ds, r):
+    """Two streams alive at once, pulled alternately (train / validation style)."""
+    a, b = make_iter(ds, r), make_iter(ds, r["pair"])
+    oa, ob = [], []
+    ta, tb = r["take"], r["pair"]["take"]
+    while len(oa) < ta or len(ob) < tb:
+        if len(oa) < ta:
+            try:
+                oa.append(val(next(a)))
+            except StopIteration:
+                ta = len(oa)
+        if len(ob) < tb:
+            try:
+                ob.append(val(next(b)))
+            except StopIteration:
+                tb = len(ob)
+    return [oa, ob]
+
+
 def iterate_ds(ds, r):
+    if r.get("pair"):
+        return iterate_pair(ds, r)
     split = SPLITS[r["split"]]
     kw = {"split": split, "repeat": r.get("repeat", False), "shuffle": r.get("shuffle", 0)}
     if r.get("shards") is not None:
@@ -83,11 +132,19 @@ def iterate_ds(ds, r):
     take = r.get("take")
     out = []
 
+    delay = r.get("delay", 0)
+    opened = []
+
     def consume(it):
+        import time as _t
         for e in it:
             out.append(val(e))
+            opened.append(OPENS[0])
+            if delay:
+                _t.sleep(delay)
             if take is not None and len(out) >= take:
                 break
+    r["_opened"] = opened
 
     if iface == "sync":
         if r.get("limit") is not None:
@@ -103,6 +160,9 @@ def iterate_ds(ds, r):
         async def go():
             async for e in ds.as_numpy_iterator_async(file_parallelism=r.get("file_parallelism", 2), **kw):
                 out.append(val(e))
+                opened.append(OPENS[0])
+                if delay:
+                    await asyncio.sleep(delay)
                 if take is not None and len(out) >= take:
                     break
         asyncio.run(go())
@@ -122,7 +182,13 @@ def run_request(root, r, timeout):
     def target():
         try:
             CALLS.clear()
+            OPENS[0] = 0
+            SPY["on"] = bool(r.get("spy"))
             box["out"] = iterate(root, r)
+            SPY["on"] = False
+            if r.get("spy"):
+                box["opened_at_yield"] = r.pop("_opened", [])
+                box["opened_total"] = OPENS[0]
             if r.get("process"):
                 box["calls"] = sorted(CALLS)
         except BaseException as ex:  # noqa: BLE001
@@ -138,10 +204,18 @@ def run_request(root, r, timeout):
 
 def damage(root, dmg):
     """{"split":0,"which":"first|middle|last","kind":"deleted|emptied|garbage"} applied to a shard file in DFS order."""
-    ds = Dataset(root)
-    infos = list(ds.shard_info_iterator(SPLITS[dmg["split"]]))
-    idx = {"first": 0, "middle": len(infos) // 2, "last": len(infos) - 1}[dmg["which"]]
-    p = root / infos[idx].file_infos[0].file_path
+    info = json.loads((root / "dataset_info.json").read_text())
+    paths = []
+
+    def walk(rel):
+        d = json.loads((root / rel).read_text())
+        for sh in d.get("shard_files", []):
+            paths.append(sh["file_infos"][0]["file_path"])
+        for ch in d.get("children_shard_lists", []):
+            walk(ch["shard_list_info_file"]["file_path"])
+    walk(info["splits"][SPLITS[dmg["split"]]]["shard_list_info_file"]["file_path"])
+    idx = {"first": 0, "middle": len(paths) // 2, "last": len(paths) - 1}[dmg["which"]]
+    p = root / paths[idx]
     if dmg["kind"] == "deleted":
         p.unlink()
     elif dmg["kind"] == "emptied":
@@ -153,15 +227,23 @@ def damage(root, dmg):
 
 
 def reference(root):
-    """DFS order of the examples per split, decoded shard by shard (the write-order oracle)."""
+    """Depth-first order of the examples per split, from the JSON files themselves (not through the
+    library's own iterator): own shards of a list first, then its children in order."""
+    info = json.loads((root / "dataset_info.json").read_text())
     ds = Dataset(root)
     ref = {}
-    for s in ds._dataset_info.splits:
-        seq, shards = [], []
-        for sh in ds.shard_info_iterator(s):
-            ex = H.decode(ds, root / sh.file_infos[0].file_path)
-            shards.append([ex, int(sh.custom_metadata.get("k", 0))])
+
+    def walk(rel, seq, shards):
+        d = json.loads((root / rel).read_text())
+        for sh in d.get("shard_files", []):
+            ex = H.decode(ds, root / sh["file_infos"][0]["file_path"])
+            shards.append([ex, int(sh.get("custom_metadata", {}).get("k", 0))])
             seq += ex
+        for ch in d.get("children_shard_lists", []):
+            walk(ch["shard_list_info_file"]["file_path"], seq, shards)
+    for s, li in info["splits"].items():
+        seq, shards = [], []
+        walk(li["shard_list_info_file"]["file_path"], seq, shards)
         ref[str(SPLITS.index(s))] = {"seq": seq, "shards": shards}
     return ref
 
